@@ -8,7 +8,7 @@ import re
 from .lib import decision, guards, paths
 from .lib.mir import AnchorLost
 
-CONFIGS_QUICK = ["A"]
+CONFIGS_QUICK = ["A", "R"]
 CONFIGS_THOROUGH = ["A", "R"]
 TECHNIQUE = "order-parity rule over the container disciplines (push/pop sites) of the multipart parser and its deserializers, extent pairing of the content slice with the verified delimiter CRLF, decision tables of the field deserializer, literal table of the part headers (built MIR)"
 LEVEL_TEXT = ('Decides clauses C10-a..e: the parser appends parts in submission order and every later stage takes elements either first-in-first-out or last-in-'
